@@ -105,6 +105,7 @@ pub fn check_bytes(data: &[u8]) {
                     13 => COp::ToDot,
                     14 => COp::ToDotAttr(a % 12),
                     15 => COp::Connect(k, k2, (t >> 6) as EV, [Via::Direct, Via::Get, Via::Index, Via::Iter, Via::ToVec][(t as usize >> 5) % 5]),
+                    16 if t & 64 != 0 => COp::ConnectBurst(k, 5 + (a >> 3)),
                     16 => COp::Disconnect(k, k2),
                     _ => COp::Isolate(k),
                 });
